@@ -187,6 +187,16 @@ def main(argv=None):
             lab, st = rng.choice(faults_at(good, pos, True, rng))
             streams.append((f"snoop {lab}@{pos}", st))
             streams.append(("snoop response first", good[len(good) // 2 - 1:]))
+        # flow control frames with every flow status nibble (continue, wait, overflow, and the reserved values 3..15 which a
+        # corrupted PCI byte produces) between the first and the consecutive frames: no crash, the transfer is reassembled
+        wants = {}
+        tq = bytes([0xAB]) + bytes(range(1, 20))
+        segs = ic.segment(8, tq)
+        for flag in range(16):
+            lab = f"snoop flow status {flag}"
+            streams.append((lab, [(SR, segs[0]), (ST, bytes([0x30 | flag, 0, 0])), (SR, bytes([0x30 | flag, 8, 0]))] +
+                            [(SR, f) for f in segs[1:]]))
+            wants[lab] = [["req", tq.hex()]]
         for lab, st in streams:
             st = [(f, d) for f, d in st if len(d) > 0]  # empty frames: as candump prints them (no data field), see below
             # what candump prints for remote frames and for frames without data, at a random position
@@ -198,6 +208,10 @@ def main(argv=None):
             if err:
                 ck.violation(f"odxtools snoop on a candump log ({lab}) raised {err}",
                              {"snoop": True, "log": text, "label": lab})
+                break
+            if lab in wants and got != wants[lab]:
+                ck.violation(f"odxtools snoop on a candump log ({lab}): the transfer which the flow control frames interrupt is "
+                             f"reported as {got}, transmitted was {wants[lab]}", {"snoop": True, "log": text, "label": lab})
                 break
         ck.coverage["snoop_runs"] = nsn
     ck.assumptions = ["frames are byte strings of any length (including empty) on arbitrary ids",
